@@ -111,7 +111,7 @@ def run(tier, seed, started):
             c.get('sliced_executions', 0) < 200:
         common.vacuous(PROP, res, f'vacuous C07 run: {c} {kinds}')
     coverage = {
-        'evaluations': c['executions'],
+        'evaluations': c['executions'] + c['sliced_executions'],
         'distinct_nontrivial': len(res.sets.get('schedules', ())),
         'rule': (f'{len(fullrun.scenarios())} scenarios x every choice vector with total deviation cost <= bound over the '
                  'quiescent points of the explored phase; distinct = (scenario, choice vector)'),
